@@ -493,6 +493,15 @@ def main(pid, tier=None, replay=None):
                 print('REPLAY: no failure reproduced')
             return rc
         # 1. translators
+        try:
+            from extract import prange as _prange
+            if pid in _prange.TARGETS:
+                _prange.generate(pid, LEAN)
+                ctx.modules.append('AbacusVerif.Props.Prange%s' % pid)
+                ctx.theorems += ['AbacusVerif.Prange%s.prange_writes_private' % pid,
+                                 'AbacusVerif.Prange%s.prange_table_nonempty' % pid]
+        except Exception as e:
+            ctx.tie('extract-prange', ''.join(traceback.format_exception_only(type(e), e)).strip())
         if hasattr(mod, 'extract'):
             try:
                 mod.extract(ctx)
